@@ -8,4 +8,8 @@ def lexLt : List Nat → List Nat → Bool
   | _ :: _, [] => false
   | a :: as, b :: bs => if a < b then true else if b < a then false else lexLt as bs
 
+/-- `konst::cmp_str` on byte strings -/
+def cmpBytes (a b : List Nat) : Ordering :=
+  if lexLt a b then .lt else if lexLt b a then .gt else .eq
+
 end Lex
